@@ -39,6 +39,7 @@ type StreamOpts struct {
 	Size          int // approximate number of value events
 	MaxArrayLen   int // max elements/bytes in arrays
 	MaxComments   int
+	NoForwardRefs bool // with Markers: only references to markers already defined
 }
 
 type streamGen struct {
@@ -52,6 +53,7 @@ type streamGen struct {
 	recTypes   []recType
 	pendingFwd []string // forward-referenced ids that still need a definition (any type)
 	usedIDs    map[string]bool
+	openLists  int // lists currently open (forward references are only made where a later sibling can define the marker)
 }
 
 type markerInfo struct {
@@ -220,6 +222,13 @@ func (g *streamGen) value(depth int, keyableOnly bool, allowNull bool) {
 	r := g.r
 	canNest := depth < g.o.MaxDepth && g.budget > 0
 	// markers and references
+	if g.o.Markers && !g.o.NoForwardRefs && g.openLists > 0 && len(g.pendingFwd) < 4 && r.Intn(25) == 0 {
+		// forward reference: the marker is defined by a later element of an enclosing list (see list())
+		id := g.newID()
+		g.pendingFwd = append(g.pendingFwd, id)
+		g.emit(ev.Event{K: ev.REF, B: []byte(id)})
+		return
+	}
 	if g.o.Markers && r.Intn(14) == 0 {
 		if len(g.markers) > 0 && r.Intn(2) == 0 {
 			m := g.markers[r.Intn(len(g.markers))]
@@ -652,6 +661,21 @@ var areaLocations = []string{"America/New_York", "E/Berlin", "Europe/Berlin", "A
 	"M/Argentina/Buenos_Aires", "America/Argentina/La_Rioja", "S/Sydney", "Australia/Sydney", "Antarctica/Troll", "R/Arctic", "Indian/Maldives",
 	"T/Azores", "P/Fiji", "U/Samoa", "Pacific/Port_Moresby", "America/Port-au-Prince", "Europe/Isle_of_Man", "Mars/Olympus"}
 
+// SynthAreaLocation makes an area/location name of exactly n bytes (3..127) inside the CTE grammar; names with a known
+// area prefix are abbreviated by compact_time, so the encoded length varies independently of n.
+func SynthAreaLocation(r *rand.Rand, n int) string {
+	const alphabet = "abcdefghijklmnopqrstuvwxyzABCDEFGHIJKLMNOPQRSTUVWXYZ0123456789_-+"
+	prefix := []string{"Q/", "Qq/", "America/", "Europe/", "Etc/"}[r.Intn(5)]
+	if n < len(prefix)+1 {
+		prefix = "Q/"
+	}
+	b := []byte(prefix)
+	for len(b) < n {
+		b = append(b, alphabet[r.Intn(len(alphabet))])
+	}
+	return string(b)
+}
+
 // Zone picks a time zone of every form.
 func Zone(r *rand.Rand) compact_time.Timezone {
 	switch r.Intn(8) {
@@ -660,9 +684,22 @@ func Zone(r *rand.Rand) compact_time.Timezone {
 	case 2:
 		return compact_time.TZLocal()
 	case 3, 4:
+		if r.Intn(3) == 0 {
+			return compact_time.TZAtAreaLocation(SynthAreaLocation(r, 3+r.Intn(125)))
+		}
 		return compact_time.TZAtAreaLocation(areaLocations[r.Intn(len(areaLocations))])
 	case 5, 6:
-		return compact_time.TZAtLatLong(r.Intn(18001)-9000, r.Intn(36001)-18000)
+		// half of the coordinates come from the sign/rounding boundaries (hundredths around 0, +-1 degree and the range ends)
+		coord := func(limit int) int {
+			switch r.Intn(4) {
+			case 0:
+				return r.Intn(201) - 100
+			case 1:
+				return []int{-limit, -limit + 1, limit - 1, limit, -101, 101, -1000, 1000, -5, 5, -1, 1, 0, -99, 99, -100, 100, -7, 29, 57, 58, -58, 113, 115}[r.Intn(24)]
+			}
+			return r.Intn(2*limit+1) - limit
+		}
+		return compact_time.TZAtLatLong(coord(9000), coord(18000))
 	default:
 		m := r.Intn(2879) - 1439
 		if m == 0 {
@@ -943,11 +980,34 @@ func (g *streamGen) custom(binary bool) {
 
 func (g *streamGen) list(depth int) {
 	g.emit(ev.Event{K: ev.LIST})
+	g.openLists++
 	n := g.r.Intn(6)
+	if g.r.Intn(8) == 0 {
+		n = 5 + g.r.Intn(20) // wide lists: builders grow their slices past several capacity steps
+	}
 	for i := 0; i < n && g.budget > 0; i++ {
 		g.pseudo()
 		g.value(depth+1, false, true)
 	}
+	// define the markers of pending forward references: all of them when this is the outermost open list,
+	// otherwise each with probability 1/2 (the rest is left to an enclosing list)
+	var keep []string
+	for _, id := range g.pendingFwd {
+		if g.openLists > 1 && g.r.Intn(2) == 0 {
+			keep = append(keep, id)
+			continue
+		}
+		g.pseudo()
+		g.emit(ev.Event{K: ev.MARK, B: []byte(id)})
+		save := len(g.out)
+		mk, rr := g.o.Markers, g.o.RemoteRef
+		g.o.Markers, g.o.RemoteRef = false, false
+		g.valueNoMarker(depth+1, depth+1 < g.o.MaxDepth, false)
+		g.o.Markers, g.o.RemoteRef = mk, rr
+		g.markers = append(g.markers, markerInfo{id, isKeyableKind(g.out[save])})
+	}
+	g.pendingFwd = keep
+	g.openLists--
 	g.pseudo()
 	g.emit(ev.Event{K: ev.END})
 }
